@@ -19,17 +19,18 @@ Definition q_mats_identical (fs : list (list (list Qc))) : bool :=
 
 (* ---- wave 2: the transliterated implementation models (Model/C15Impl.v), executed group after group through a
         materialised array as pyttb does, and compared EXACTLY with the spec on every generated input ---- *)
-From PV Require Import Model.C15Impl.
+From PV Require Import Model.C15Impl Model.C15Dense.
 Definition q_issym (T : dense Qc) (G : list (list nat)) : bool := spec_issym Qc_eq_bool (dshape T) (qden T) G.
-Definition q_sym_new_d (T : dense Qc) (G : list (list nat)) : dense Qc :=
-  fold_left (fun T g => tabulate (dshape T) (sym_new_group q0 q1 Qcplus Qcmult Qcinv Qc_eq_bool (dshape T) (qden T) g)) G T.
-Definition q_sym_old_d (T : dense Qc) (G : list (list nat)) : dense Qc :=
-  let s := dshape T in let N := length s in
-  fold_left (fun Y p => tabulate s (maxfix_step qmax (qden Y) p)) (sym_perms N G)
-            (tabulate s (sym_old_avg q0 q1 Qcplus Qcmult Qcinv N (qden T) G)).
+(* wave 4: these are the generic container-level executions of Model/C15Dense.v at Qc (Proofs/C15Dense.v proves that they
+   denote the spec: the tabulate / den round trip between the groups / max-fix rounds loses nothing) *)
+Definition q_sym_new_d (T : dense Qc) (G : list (list nat)) : dense Qc := sym_new_d q0 q1 Qcplus Qcmult Qcinv Qc_eq_bool T G.
+Definition q_sym_old_d (T : dense Qc) (G : list (list nat)) : dense Qc := sym_old_d q0 q1 Qcplus Qcmult Qcinv qmax T G.
 Definition q_dense_eqb (A B : dense Qc) : bool := nvec_eqb (dshape A) (dshape B) && list_eqb Qc_eq_bool (ddata A) (ddata B).
+(* wave 4: OLD symmetrize at code level, the permutation table built as the code builds it (Model/C15OldTable.v) *)
+From PV Require Import Model.C15Details Model.C15OldTable.
+Definition q_sym_old_code (T : dense Qc) (G : list (list nat)) : dense Qc := sym_old_code q0 q1 Qcplus Qcmult Qcinv qmax T G.
 Definition q_impls_agree (T : dense Qc) (G : list (list nat)) : bool :=
-  let S := tabulate (dshape T) (q_sym T G) in q_dense_eqb (q_sym_new_d T G) S && q_dense_eqb (q_sym_old_d T G) S.
+  let S := tabulate (dshape T) (q_sym T G) in q_dense_eqb (q_sym_new_d T G) S && q_dense_eqb (q_sym_old_code T G) S.
 Definition z_issym_impls_agree (T : dense Z) (G : list (list nat)) : bool :=
   let b := z_issym T G in
   Bool.eqb (impl_issym_new Z.eqb (dshape T) (zden T) G) b && Bool.eqb (impl_issym_old Z.eqb (dshape T) (zden T) G) b.
@@ -54,4 +55,45 @@ Definition q_k15_signed_copies (K1 : ktensor Qc) : bool :=
   match kfactors K1 with
   | [] => false
   | A0 :: _ => forallb (signed_copyb q0 q1 Qcmult Qcopp (fun a b => qclose tol9 a b) A0 (nrows A0) (krank K1)) (kfactors K1)
+  end.
+
+(* ---- wave 4: the code-level transliteration of NEW symmetrize / issymmetric over the GENERATED tt_ind2sub / tt_sub2ind
+        (Model/C15Lin.v; Props/C15w4.v proves it equal to the spec) executed on the generated inputs: its answer must be
+        pyttb's (value within the float tolerance, AssertionError exactly where the model says Err, the boolean exactly) ---- *)
+From PV Require Import Np.NpZ Model.C15Lin.
+Definition q_code_sym (T : dense Qc) (G : list (list nat)) : res (dense Qc) := sym_new_lin q0 q1 Qcplus Qcmult Qcinv Qc_eq_bool T G.
+Definition q_code_issym (T : dense Qc) (G : list (list nat)) : res bool := issym_new_lin q0 Qc_eq_bool T G.
+Definition q_res_dense_eqb (r : res (dense Qc)) (B : dense Qc) : bool := match r with Ok A => q_dense_eqb A B | Err => false end.
+Definition q_code_matches (T : dense Qc) (G : list (list nat)) (O : dense Qc) : bool :=
+  match q_code_sym T G with Ok R => q_same R O | Err => false end.
+Definition q_code_rejects (T : dense Qc) (G : list (list nat)) : bool := match q_code_sym T G with Err => true | Ok _ => false end.
+Definition q_code_issym_is (T : dense Qc) (G : list (list nat)) (b : bool) : bool :=
+  match q_code_issym T G with Ok r => Bool.eqb r b | Err => false end.
+Definition z_code_issym_is (T : dense Z) (G : list (list nat)) (b : bool) : bool :=
+  match issym_new_lin 0%Z Z.eqb T G with Ok r => Bool.eqb r b | Err => false end.
+
+(* ---- wave 4: ktensor.issymmetric (Model/C15KSym.v) over Z: the answer and the zero pattern of the strict upper triangle of
+        the returned difference matrix ---- *)
+From PV Require Import Model.C15KSym.
+Definition z_k_issym (K : ktensor Z) : bool := k_issym Z.eqb K.
+Definition z_k_diffs_zero (K : ktensor Z) : list (list bool) := k_diffs_zero Z.eqb K.
+Definition bmat_eqb (a b : list (list bool)) : bool := list_eqb (list_eqb Bool.eqb) a b.
+
+(* ---- wave 4: OLD issymmetric WITH details (Model/C15Details.v): the answer, all_diffs (exact: max |x - x'| over the entries)
+        and all_perms (rows in the order of itertools.permutations) must be pyttb's; None = the bare False of the size check ---- *)
+From PV Require Import Model.C15Details.
+Definition z_details (T : dense Z) (G : list (list nat)) :=
+  impl_issym_old_details 0%Z Z.eqb (fun a b => Z.abs (a - b)) Z.max (dshape T) (zden T) G.
+Definition z_details_match (T : dense Z) (G : list (list nat)) (ok : bool) (diffs : list Z) (rows : list (list nat)) : bool :=
+  match z_details T G with
+  | Some (b, d, p) => Bool.eqb b ok && vec_eqb d diffs && nmat_eqb p rows
+  | None => false
+  end.
+Definition z_details_refused (T : dense Z) (G : list (list nat)) : bool := match z_details T G with None => true | Some _ => false end.
+Definition q_details (T : dense Qc) (G : list (list nat)) :=
+  impl_issym_old_details q0 Qc_eq_bool (fun a b => qabs (a - b)) qmax (dshape T) (qden T) G.
+Definition q_details_match (T : dense Qc) (G : list (list nat)) (ok : bool) (diffs : list Qc) (rows : list (list nat)) : bool :=
+  match q_details T G with
+  | Some (b, d, p) => Bool.eqb b ok && list_eqb Qc_eq_bool d diffs && nmat_eqb p rows
+  | None => false
   end.
